@@ -85,7 +85,7 @@ META["C11"] = {
     "level_note": "Trusts the std::map model under the mathematical order, ASan/UBSan, the tracking allocator.",
 }
 
-def B(prop, cases_quick=2500, cases_thorough=40000):
+def B(prop, cases_quick=1600, cases_thorough=40000):
     return {"stages": [A("actor", "actor1", cases={"quick": cases_quick, "thorough": cases_thorough})], "assumptions": ACTOR_ASSUMPTIONS}
 
 ACTOR_ASSUMPTIONS = [
